@@ -282,41 +282,60 @@ Exec(H, r, ins) ==
 (* IncompleteLineProgram::sequences do it.  S.end: "run" | "done" | "err". *)
 (* seqs: [start, end, from, to] (from..to = byte range of the sequence's   *)
 (* instructions); sfrom / sstart: the pending sequence.                    *)
-InitRun(H) == [pos |-> 1, r |-> InitRegs(H), rows |-> <<>>, files |-> <<>>, end |-> "run",
-               seqs |-> <<>>, sfrom |-> 1, sstart |-> <<>>]
+InitRun(H) == [pos |-> 1, k |-> 1, r |-> InitRegs(H), rows |-> <<>>, files |-> <<>>, end |-> "run",
+               seqs |-> <<>>, sfrom |-> 1, kfrom |-> 1, sstart |-> <<>>]
 
 FileOf(ins) == <<ins.raw, Trim(ins.x[1]), Trim(ins.x[2]), Trim(ins.x[3])>>
 
-(* the effect of one decoded instruction on the run state *)
+(* the effect of one decoded instruction (n bytes long) on the run state;  *)
+(* pos / k count bytes / instructions, from..to and kfrom..kto delimit a   *)
+(* sequence's instructions in both units                                   *)
 Apply(H, S, ins, n) ==
     LET e == Exec(H, S.r, ins) IN
     IF ~e.ok THEN [S EXCEPT !.end = "err"]
     ELSE LET np   == S.pos + n
              vis  == e.emit /\ ~e.r.tomb              \* tombstone rows are swallowed
              fin  == vis /\ e.r.es                    \* a sequence is completed
-         IN [pos |-> np,
+         IN [pos |-> np, k |-> S.k + 1,
              r |-> IF e.emit THEN ResetRegs(H, e.r) ELSE e.r,
              rows |-> IF vis THEN Append(S.rows, RowOf(e.r)) ELSE S.rows,
              files |-> IF ins.op = "define_file" THEN Append(S.files, FileOf(ins)) ELSE S.files,
              end |-> "run",
              seqs |-> IF fin THEN Append(S.seqs, [start |-> IF S.sstart = <<>> THEN <<>> ELSE S.sstart[1],
-                                                  end |-> Trim(e.r.addr), from |-> S.sfrom, to |-> np - 1])
+                                                  end |-> Trim(e.r.addr), from |-> S.sfrom, to |-> np - 1,
+                                                  kfrom |-> S.kfrom, kto |-> S.k])
                       ELSE S.seqs,
              sfrom |-> IF fin THEN np ELSE S.sfrom,
+             kfrom |-> IF fin THEN S.k + 1 ELSE S.kfrom,
              sstart |-> IF fin THEN <<>> ELSE IF vis /\ S.sstart = <<>> THEN <<Trim(e.r.addr)>> ELSE S.sstart]
 
+(* byte-level step: decode at S.pos and apply (used by trace validation)   *)
 Step(H, b, S) ==
     IF S.pos > Len(b) THEN [S EXCEPT !.end = "done"]
     ELSE LET d == Dec(H, b, S.pos) IN
          IF ~d.ok THEN [S EXCEPT !.end = "err"] ELSE Apply(H, S, d.ins, d.n)
 
+(* The whole program decoded once: [list |-> Seq([ins, n]), ok]; ok = FALSE *)
+(* if an instruction after the listed ones does not decode.                *)
+RECURSIVE DecodeFrom(_, _, _, _)
+DecodeFrom(H, b, pos, acc) ==
+    IF pos > Len(b) THEN [list |-> acc, ok |-> TRUE]
+    ELSE LET d == Dec(H, b, pos) IN
+         IF ~d.ok THEN [list |-> acc, ok |-> FALSE]
+         ELSE DecodeFrom(H, b, pos + d.n, TLCEval(Append(acc, [ins |-> d.ins, n |-> d.n])))
+DecodeAll(H, b) == DecodeFrom(H, b, 1, <<>>)
+
+(* run over a decoded program L (same result as iterating Step) *)
+StepL(H, L, S) ==
+    IF S.k > Len(L.list) THEN [S EXCEPT !.end = IF L.ok THEN "done" ELSE "err"]
+    ELSE Apply(H, S, L.list[S.k].ins, L.list[S.k].n)
 RECURSIVE RunFrom(_, _, _)
-RunFrom(H, b, S) == IF S.end # "run" THEN S ELSE RunFrom(H, b, TLCEval(Step(H, b, S)))
-Run(H, b) == RunFrom(H, b, TLCEval(InitRun(H)))
+RunFrom(H, L, S) == IF S.end # "run" THEN S ELSE RunFrom(H, L, TLCEval(StepL(H, L, S)))
+Run(H, L) == RunFrom(H, L, TLCEval(InitRun(H)))
 
 (* CompleteLineProgram::resume_from: a fresh machine over the sequence's   *)
-(* instruction bytes.                                                      *)
-Resume(H, b, seq) == Run(H, TLCEval(SubSeq(b, seq.from, seq.to)))
+(* instructions.                                                           *)
+Resume(H, L, seq) == Run(H, TLCEval([list |-> SubSeq(L.list, seq.kfrom, seq.kto), ok |-> TRUE]))
 
 (*------------------------------------------------------------------------*)
 (* Properties of a run                                                     *)
@@ -333,12 +352,12 @@ RECURSIVE LastEs(_, _)
 LastEs(rows, k) == IF k = 0 THEN 0 ELSE IF RowEs(rows[k]) THEN k ELSE LastEs(rows, k - 1)
 (* the resumed run of every sequence of a complete run (<<>> if the run     *)
 (* failed: sequences() then returns the error)                             *)
-ResumedRuns(H, b, S) == IF S.end # "done" THEN <<>>
-                        ELSE [k \in 1..Len(S.seqs) |-> Resume(H, b, S.seqs[k])]
+ResumedRuns(H, L, S) == IF S.end # "done" THEN <<>>
+                        ELSE [k \in 1..Len(S.seqs) |-> Resume(H, L, S.seqs[k])]
 RECURSIVE ConcatRows(_, _)
 ConcatRows(RR, k) == IF k > Len(RR) THEN <<>> ELSE RR[k].rows \o ConcatRows(RR, k + 1)
 
-(* S = Run(H, b), RR = ResumedRuns(H, b, S): resuming the sequences one     *)
+(* S = Run(H, L), RR = ResumedRuns(H, L, S): resuming the sequences one     *)
 (* after the other yields exactly the rows of the straight run (up to its  *)
 (* last end_sequence row); every sequence ends with its only end_sequence  *)
 (* row, whose address is the reported end; the reported start is the       *)
@@ -400,26 +419,25 @@ StdExec(H, r, ins) ==
 StdAfterRow(H, r) == IF r.es THEN InitRegs(H)
                      ELSE [r EXCEPT !.disc = Z8, !.bb = FALSE, !.pe = FALSE, !.eb = FALSE]
 
-StdInit(H) == [pos |-> 1, r |-> InitRegs(H), rows |-> <<>>, files |-> <<>>, wf |-> TRUE, end |-> "run"]
-StdStep(H, b, S) ==
-    IF S.pos > Len(b) THEN [S EXCEPT !.end = "done"]
-    ELSE LET d == Dec(H, b, S.pos) IN
-         IF ~d.ok THEN [S EXCEPT !.end = "done", !.wf = FALSE]
-         ELSE LET e == StdExec(H, S.r, d.ins) IN
-              IF ~e.wf THEN [S EXCEPT !.end = "done", !.wf = FALSE]
-              ELSE [pos |-> S.pos + d.n,
-                    r |-> IF e.emit THEN StdAfterRow(H, e.r) ELSE e.r,
-                    rows |-> IF e.emit THEN Append(S.rows, RowOf(e.r)) ELSE S.rows,
-                    files |-> IF d.ins.op = "define_file" THEN Append(S.files, FileOf(d.ins)) ELSE S.files,
-                    wf |-> TRUE, end |-> "run"]
+StdInit(H) == [k |-> 1, r |-> InitRegs(H), rows |-> <<>>, files |-> <<>>, wf |-> TRUE, end |-> "run"]
+StdStepL(H, L, S) ==
+    IF S.k > Len(L.list) THEN [S EXCEPT !.end = "done", !.wf = L.ok]     \* undecodable tail: not well formed
+    ELSE LET ins == L.list[S.k].ins
+             e   == StdExec(H, S.r, ins) IN
+         IF ~e.wf THEN [S EXCEPT !.end = "done", !.wf = FALSE]
+         ELSE [k |-> S.k + 1,
+               r |-> IF e.emit THEN StdAfterRow(H, e.r) ELSE e.r,
+               rows |-> IF e.emit THEN Append(S.rows, RowOf(e.r)) ELSE S.rows,
+               files |-> IF ins.op = "define_file" THEN Append(S.files, FileOf(ins)) ELSE S.files,
+               wf |-> TRUE, end |-> "run"]
 RECURSIVE StdRunFrom(_, _, _)
-StdRunFrom(H, b, S) == IF S.end # "run" THEN S ELSE StdRunFrom(H, b, TLCEval(StdStep(H, b, S)))
-StdRun(H, b) == StdRunFrom(H, b, TLCEval(StdInit(H)))
+StdRunFrom(H, L, S) == IF S.end # "run" THEN S ELSE StdRunFrom(H, L, TLCEval(StdStepL(H, L, S)))
+StdRun(H, L) == StdRunFrom(H, L, TLCEval(StdInit(H)))
 
 (* The lemma binding the two machines: on a well-formed program gimli's    *)
 (* machine never enters tombstone mode, never fails, and produces exactly  *)
 (* the DWARF machine's rows and file entries.                              *)
-(* g = Run(H, b), s = StdRun(H, b) *)
+(* g = Run(H, L), s = StdRun(H, L) for the decoded program L *)
 AsCodedEqualsStd(g, s) ==
     s.wf => g.end = "done" /\ g.rows = s.rows /\ g.files = s.files /\ ~g.r.tomb
 
@@ -536,16 +554,19 @@ FileMeanings(H, T) == IF H.ver <= 4 THEN [k \in 1..Len(T.files) |-> FileMeaningV
 FormatOk(fmt) == /\ Cardinality({k \in 1..Len(fmt) : fmt[k][1] = Nat8(LNCT_path)}) = 1
                  /\ \A k \in 1..Len(fmt) : fmt[k][2] \in KnownForms
 
-EncLineHeader(H, T, prog) ==
+(* everything between the unit length and the program: constant per (H, T) *)
+EncHeaderBody(H, T) ==
     LET osz  == IF H.fmt = 64 THEN 8 ELSE 4
         body == <<H.mil>> \o (IF H.ver >= 4 THEN <<H.maxops>> ELSE <<>>)
                 \o <<IF H.dis THEN 1 ELSE 0, (H.lbase + 256) % 256, H.lrange, H.obase>>
                 \o H.oplens
                 \o (IF H.ver <= 4 THEN EncTablesV4(T)
                     ELSE EncTableV5(H, T.dfmt, T.dirs) \o EncTableV5(H, T.ffmt, T.files))
-        hdr  == Field(H.ver, 2, H.le) \o (IF H.ver >= 5 THEN <<H.asz, 0>> ELSE <<>>)
-                \o Field(Len(body), osz, H.le) \o body
-        n    == Len(hdr) + Len(prog)
+    IN Field(H.ver, 2, H.le) \o (IF H.ver >= 5 THEN <<H.asz, 0>> ELSE <<>>)
+       \o Field(Len(body), osz, H.le) \o body
+EncUnit(H, hdr, prog) ==
+    LET n == Len(hdr) + Len(prog)
     IN (IF H.fmt = 64 THEN <<255, 255, 255, 255>> \o Field(n, 8, H.le) ELSE Field(n, 4, H.le))
        \o hdr \o prog
+EncLineHeader(H, T, prog) == EncUnit(H, EncHeaderBody(H, T), prog)
 =============================================================================
